@@ -107,6 +107,8 @@ def t_table_case(t, head_modes=('left', 'right'), n_max=5, T_max=4, K_max=7, nbe
         s = t_sentence(t, n, T, numeric, prefix=f's{k}w')
         if beam == 'adversarial':
             adversarial_rows(t, s, cfg)
+            if numeric == 'dyadic':
+                numeric = 'dyadic+offsets'      # rows moved by log(beta) +/- delta are no longer dyadic: tolerance
         sents.append(s)
     return {'grammar': spec, 'tags': spec['cats'][:T], 'roots': roots, 'sentences': sents, 'config': cfg,
             'numeric': numeric, 'head_mode': head_mode}
